@@ -18,13 +18,13 @@ LEVEL = 'exploration'
 TECHNIQUE = ('Hypothesis-generated object graphs (trees, DAGs with shared sub-objects, back-patched cycles, custom '
              'objects) x build options, against a reference conversion; differential across the three builder entry points')
 RULE = ("A case is an object graph given as a node table: each node is a scalar, list, tuple, dict (str/int keys), "
-        "set/frozenset (of hashable scalars or scalar tuples) or a custom object with attributes; lists, dicts and "
+        "set/frozenset (of hashable scalars or scalar tuples, or of custom objects some of which carry equal data) or a custom object with attributes; lists, dicts and "
         "objects may reference any node (so shared sub-objects and self-/mutual cycles at any depth arise by "
         "back-patching), tuples and sets reference earlier nodes; x dict strategy x list-edit mode x "
         "{check_for_cycles, ignore_cycles}. Oracle, acyclic graphs, for every entry point that supports the types "
         "(json.build_tree, BasicBuilder().build_tree, pydiff.build_tree): t.to_obj() equals the reference conversion "
         "(tuples -> lists, sets -> multisets) with strict type comparison; the entry points give == trees with equal "
-        "canonical values; every mapping and list node carries the flags the build options ask for, at every depth; a BasicBuilder subclass with its own tuple handler is honoured after the base class was used; t.copy() is == to t, has an equal to_obj() and shares no node object with t; shared "
+        "canonical values; every mapping and list node carries the flags the build options ask for, at every depth; a BasicBuilder subclass with its own handler for a tuple subclass is honoured after the base class was used, also for an unregistered subclass of that subclass (most specialised registered ancestor wins); every set converts to a multiset with as many children as members, pairwise == to the members' own conversions; t.copy() is == to t, has an equal to_obj() and shares no node object with t; shared "
         "sub-objects must not raise a cycle error. Cyclic graphs with cycle checking on: the Builder entry points "
         "raise ValueError, or with ignore_cycles produce a tree containing a CyclicReference placeholder, within the "
         "loop budget; json.build_tree must terminate with an exception. Non-trivial: a graph with sharing or a cycle, "
@@ -66,7 +66,7 @@ def graphs(draw, max_nodes=8, allow_cycles=True, allow_obj=True):
     for i in range(n):
         kinds = ['scalar', 'scalar', 'list', 'list', 'dict', 'dict', 'tuple', 'tuple', 'set']
         if allow_obj:
-            kinds.append('obj')
+            kinds += ['obj', 'obj', 'oset']
         k = draw(st.sampled_from(kinds))
         hi = n - 1 if cyc else max(i - 1, -1)        # acyclic graphs only reference earlier nodes (sharing is still possible)
         refs = st.integers(0, hi) if hi >= 0 else None
@@ -83,9 +83,22 @@ def graphs(draw, max_nodes=8, allow_cycles=True, allow_obj=True):
         elif k == 'set':
             elems = draw(st.lists(st.one_of(HSCAL, st.lists(HSCAL, max_size=2).map(lambda t: ['t'] + t)), max_size=3))
             nodes.append([draw(st.sampled_from(['set', 'frozenset'])), elems])
+        elif k == 'oset':
+            # a set of custom objects (hashable by identity): distinct members may carry equal data
+            earlier = [j for j in range(i) if nodes[j][0] == 'obj']
+            if not earlier:
+                nodes.append(['obj', []])
+            else:
+                members = draw(st.lists(st.sampled_from(earlier), min_size=1, max_size=3))
+                twins = [j for j in earlier if nodes[j][1] == nodes[members[0]][1] and j not in members]
+                nodes.append(['oset', members + twins[:2]])
         else:
-            attrs = draw(st.lists(st.sampled_from(['x', 'y', 'name']), max_size=2, unique=True))
-            nodes.append(['obj', [[a, draw(refs)] for a in attrs] if refs is not None else []])
+            earlier = [j for j in range(i) if nodes[j][0] == 'obj']
+            if earlier and draw(st.booleans()):
+                nodes.append(['obj', [list(p) for p in nodes[draw(st.sampled_from(earlier))][1]]])      # same data, another object
+            else:
+                attrs = draw(st.lists(st.sampled_from(['x', 'y', 'name']), max_size=2, unique=True))
+                nodes.append(['obj', [[a, draw(refs)] for a in attrs] if refs is not None else []])
     return nodes
 
 
@@ -132,6 +145,9 @@ def valid(case):
                 return False
         elif k in ('set', 'frozenset'):
             pass
+        elif k == 'oset':
+            if not v or not all(isinstance(r, int) and 0 <= r < i and nodes[r][0] == 'obj' for r in v):
+                return False
         else:
             return False
     return case.get('cycles') in ('check', 'ignore')
@@ -152,6 +168,8 @@ def materialise(nodes):
         elif k in ('set', 'frozenset'):
             el = [tuple(e[1:]) if isinstance(e, list) else e for e in v]
             objs[i] = set(el) if k == 'set' else frozenset(el)
+        elif k == 'oset':
+            objs[i] = frozenset(objs[r] for r in v) if len(v) % 2 else set(objs[r] for r in v)
         elif k == 'tuple':
             objs[i] = tuple(objs[r] for r in v)     # earlier nodes only; lists/dicts among them are filled below
     for i, (k, v) in enumerate(nodes):
@@ -176,7 +194,7 @@ def reachable(nodes, root):
         seen.add(i)
         order.append(i)
         k, v = nodes[i]
-        if k in ('list', 'tuple'):
+        if k in ('list', 'tuple', 'oset'):
             stack.extend(v)
         elif k in ('dict', 'obj'):
             stack.extend(r for _, r in v)
@@ -191,7 +209,7 @@ def graph_facts(nodes, root):
 
     def children(i):
         k, v = nodes[i]
-        if k in ('list', 'tuple'):
+        if k in ('list', 'tuple', 'oset'):
             return list(v)
         if k in ('dict', 'obj'):
             return [r for _, r in v]
@@ -278,6 +296,11 @@ class Pair(tuple):
     pass
 
 
+class SubPair(Pair):
+    """not registered anywhere: must be handled by the most specialised registered ancestor (Pair, not tuple)"""
+    pass
+
+
 class TaggingBuilder(builder.BasicBuilder):
     """A user-style subclass that registers its own, more specific handler for a type the base class also handles: the
     most specialised registration must win (type dispatch by MRO), whatever was built before in the process."""
@@ -294,7 +317,7 @@ class TaggingBuilder(builder.BasicBuilder):
 def pairify(o):
     """the same acyclic object with every tuple replaced by an instance of the tuple subclass Pair"""
     if isinstance(o, tuple):
-        return Pair(pairify(x) for x in o)
+        return (SubPair if len(o) % 2 else Pair)(pairify(x) for x in o)
     if isinstance(o, list):
         return [pairify(x) for x in o]
     if isinstance(o, dict):
@@ -341,8 +364,8 @@ def check(case):
     ds, le = case.get('ds', 'auto'), case.get('le', 'on')
     ignore = case.get('cycles') == 'ignore'
     opts = common.build_options(ds, le, check_for_cyces=True, ignore_cycles=ignore)
-    has_obj = 'obj' in kinds
-    has_set = bool(kinds & {'set', 'frozenset'})
+    has_obj = bool(kinds & {'obj', 'oset'})
+    has_set = bool(kinds & {'set', 'frozenset', 'oset'})
     entries = [('pydiff', lambda: pydiff.build_tree(o, opts))]
     if not has_obj:
         entries.append(('basic', lambda: builder.BasicBuilder(opts).build_tree(o)))
@@ -422,6 +445,29 @@ def check(case):
             got = norm(tt.to_obj())
         if not strict_eq(got, expected_tagged(o)):
             out.fail('subclass-handler-ignored', f"a BasicBuilder subclass with its own tuple builder produced {got!r}, expected {expected_tagged(o)!r}")
+    # a set converts to the multiset of its members' conversions: same number of members, pairwise == (whatever the members are)
+    for i in sorted(reachable(nodes, root)):
+        if nodes[i][0] not in ('set', 'frozenset', 'oset'):
+            continue
+        for name, f in (('pydiff', lambda x: pydiff.build_tree(x, opts)),) + \
+                ((('basic', lambda x: builder.BasicBuilder(opts).build_tree(x)),) if nodes[i][0] != 'oset' and not has_obj else ()):
+            with guard(f'{name}.build_tree of a set and of its members'):
+                ts = f(objs[i])
+                kids = list(ts.children())
+                members = [f(m) for m in objs[i]]
+                rest = list(members)
+                unmatched = 0
+                for kid in kids:
+                    j = next((j for j, m in enumerate(rest) if m == kid), None)
+                    if j is None:
+                        unmatched += 1
+                    else:
+                        del rest[j]
+            if len(kids) != len(members) or unmatched or rest:
+                out.fail(f'set-members-lost:{name}', f"{name}: a set of {len(members)} members converts to a {type(ts).__name__} with {len(kids)} "
+                                                    f"children ({unmatched} of them equal to no member's conversion): {expected(objs[i])!r}")
+                break
+        out.label('set-members-checked')
     names = list(trees)
     for x, y in zip(names, names[1:]):
         with guard('compare entry points'):
